@@ -446,6 +446,16 @@ func (in *Interp) intrinsic(fn *ssa.Function, args []Value, site *ssa.Call) (Val
 		slot := new(Value)
 		*slot = in.zero(rt.(*types.Pointer).Elem())
 		cp := Pointer{P: slot}
+		// the per-SSRC state maps exist in a real context (SetROC / ROC run as real code)
+		if cst, ok := under(rt.(*types.Pointer).Elem()).(*types.Struct); ok {
+			csv := (*slot).(*StructV)
+			for i := 0; i < cst.NumFields(); i++ {
+				if mt, ok := under(cst.Field(i).Type()).(*types.Map); ok {
+					in.uidSeq++
+					csv.F[i] = &MapV{KT: mt.Key(), VT: mt.Elem(), id: in.uidSeq}
+				}
+			}
+		}
 		if opts, ok := args[3].(SliceV); ok && opts.O != nil {
 			n := in.concretize(opts.Len, "srtp opts")
 			off := in.concretize(opts.Off, "srtp opts off")
@@ -476,7 +486,23 @@ func (in *Interp) intrinsic(fn *ssa.Function, args []Value, site *ssa.Call) (Val
 		o := &Obj{id: in.objSeq, elemT: types.Typ[types.Uint8], lenOnly: true, phys: 1 << 20}
 		return TupleV{SliceV{o, ts.Const(64, 0), ln, ln}, IfaceV{}}, true
 	case "(*github.com/pion/srtp/v3.Context).SetROC":
+		cp := args[0].(Pointer)
+		if in.rocTab == nil {
+			in.rocTab = map[*Value][][2]*Term{}
+		}
+		in.rocTab[cp.P] = append(in.rocTab[cp.P], [2]*Term{args[1].(*Term), args[2].(*Term)})
 		return nil, true
+	case "(*github.com/pion/srtp/v3.Context).ROC":
+		cp := args[0].(Pointer)
+		ssrc := args[1].(*Term)
+		var val *Term = ts.Const(32, 0)
+		found := ts.Bool(false)
+		for _, e := range in.rocTab[cp.P] {
+			eq := ts.Eq(e[0], ssrc)
+			val = ts.Ite(eq, e[1], val) // later entries override earlier ones
+			found = ts.Or(found, eq)
+		}
+		return TupleV{val, found}, true
 	case "time.Sleep":
 		return nil, true
 	case "time.NewTimer", "time.NewTicker", "time.AfterFunc":
@@ -880,6 +906,10 @@ func (in *Interp) symbolicNow(fn *ssa.Function) Value {
 		// non-decreasing
 		later := ts.Or(ts.Ult(in.lastNowSec, sec), ts.And(ts.Eq(in.lastNowSec, sec), ts.Ule(in.lastNowNsec, nsec)))
 		in.assume(later, "time.Now non-decreasing")
+		if d, ok := in.eng.cfg.Params["NOWDRIFT"]; ok {
+			// harness option: consecutive readings of the clock are at most d seconds apart
+			in.assume(ts.Ule(ts.Sub(sec, in.lastNowSec), ts.Const(64, uint64(d))), "time.Now drift bound")
+		}
 	}
 	in.lastNowSec, in.lastNowNsec = sec, nsec
 	res.F[0] = nsec
